@@ -493,8 +493,10 @@ class ITerm2Image(GraphicsImage, metaclass=ITerm2ImageMeta):
             name, version = get_terminal_name_version()
             if name in {"iterm2", "konsole", "wezterm"}:
                 try:
+                    # The version is unknown (`None`) if the name is from `$TERM_PROGRAM`
                     if name != "konsole" or (
-                        tuple(map(int, version.split("."))) >= (22, 4, 0)
+                        version is not None
+                        and tuple(map(int, version.split("."))) >= (22, 4, 0)
                     ):
                         cls._supported = True
                         cls._TERM, cls._TERM_VERSION = name, version
